@@ -142,6 +142,9 @@ def check(ctx, rep):
     rep.ob('erl.mapping', 'ERL: 0 -> 0, -1 (direct mode) -> 65535, else line of the error position',
            m == {'0': [('self.error_pos == 0', True)], '65535': [('self.error_pos == 0', False), ('self.error_pos == -1', True)],
                  'self._program.get_line_number(self.error_pos)': [('self.error_pos == 0', False), ('self.error_pos == -1', False)]}, repr(m), ctx.where(el))
+    rets_ = [norm(r.value) for r in own_nodes(el) if isinstance(r, ast.Return)]
+    rep.ob('erl.wide-enough', 'ERL is returned as a single-precision number (line numbers and 65535 do not fit a signed integer)',
+           rets_ == ['self._values.new_single().from_int(pos)'], repr(rets_), ctx.where(el))
     # on_error_goto_
     og = ctx.fn(INTERP + ':Interpreter.on_error_goto_')
     fl = ctx.flow(og)
@@ -210,6 +213,8 @@ def variants(ctx):
            in_fn('resume_', lambda fn: mu.remove_stmt(fn, mu.text_is('self.error_handle_mode = False'))), expect='resume.clears'),
         Va('resume-without-error-unchecked', 'break', INTERP,
            in_fn('resume_', lambda fn: mu.replace_expr(fn, mu.text_is('error.RESUME_WITHOUT_ERROR'), 'error.NO_RESUME')), expect='resume.without-error'),
+        Va('erl-as-integer', 'break', INTERP,
+           in_fn('erl_', lambda fn: mu.replace_expr(fn, mu.text_is('self._values.new_single().from_int(pos)'), 'self._values.new_integer().from_int(pos, unsigned=True)')), expect='erl.wide'),
         Va('erl-direct-mode-zero', 'break', INTERP,
            in_fn('erl_', lambda fn: mu.replace_stmt(fn, mu.text_is('pos = 65535'), 'pos = 0')), expect='erl.mapping'),
         Va('err-reads-position', 'break', INTERP,
